@@ -42,7 +42,8 @@ def make_history(case):
 
 
 def judge(case, reports, add, stats):
-    runcheck.monitor_violations(reports, add)
+    runcheck.monitor_violations(
+        reports, add, skip=lambda k: k.startswith("policy:"))
     its = sum((r.get("counters") or {}).get("ns.iterations", 0)
               for r in reports)
     flow_repl = sum((r.get("counters") or {}).get("ns.flow_replacements", 0)
